@@ -338,7 +338,7 @@ PROPS["C13"] = dict(
     level_note="Go's scheduler is not owned: delays at instrumented points sample interleavings, no exhaustiveness claim. Standby traffic is fully relayed before a trigger is fed and nothing but the ACT / CFG line is sent between trigger and "
                "handshake line (bytes in front of a handshake line are discarded by design). End markers are fed once the relay is transferring (DESIGN.md, observation on C14).",
     rule="non-trivial = at least one byte besides the ACT/CFG line was fed while the relay was handshaking, or a chunk boundary fell inside the ACT line; distinct by SHA-1 of the case JSON; labels report how often a delay fired",
-    tests=[dict(name="TestVF_C13", env=dict(VERIF_CASE_LIMIT=120), quick=dict(checks=4000, shards=16, timeout=900), thorough=dict(checks=300000, shards=16, timeout=20000))],
+    tests=[dict(name="TestVF_C13", env=dict(VERIF_CASE_LIMIT=120), quick=dict(checks=4000, shards=16, timeout=900), thorough=dict(checks=100000, shards=16, timeout=10000))],
 )
 PROPS["C13"]["yield"] = ["relay.go", "buffer.go"]
 
